@@ -273,7 +273,7 @@ cfoldBCall(Foam bcall)
 	  case FOAM_BVal_CharNum:
 		if (!cfoldFoldAll) break;
 		assert(foamTag(argv[0]) == FOAM_SInt);
-		foam = foamNewChar(argv[0]->foamSInt.SIntData);
+		foam = foamNewChar((UByte) argv[0]->foamSInt.SIntData);
 		break;
 
 	  case FOAM_BVal_SFlo0:
